@@ -2,6 +2,7 @@ package main
 
 import (
 	"encoding/json"
+	"fmt"
 	"time"
 
 	"github.com/goghcrow/yae/simrt"
@@ -64,6 +65,7 @@ func (c14) Batch(seed uint64, wid, batch, count int, deadline time.Time, emit fu
 		res := runScenario(sc, rw)
 		cap.read()
 		tick()
+		traceRun(i, res.Hash, res.Steps, fmt.Sprint(res.Outcomes, res.Decisions))
 		rec.Runs++
 		c := rec.Counts
 		c["steps"] += int64(res.Steps)
